@@ -186,8 +186,21 @@ namespace rkcommon {
     template <typename T>
     inline bool Any::is() const
     {
-      return valid() && (strcmp(typeid(T).name(),
-                                currentValue->valueTypeID().name()) == 0);
+      if (!valid())
+        return false;
+
+      const std::type_info &stored = currentValue->valueTypeID();
+      const char *name = typeid(T).name();
+
+      // NOTE: types in unnamed namespaces ("_GLOBAL__N_" in their mangled
+      //       names) of different translation units share a name, but are not
+      //       the same type; such a type has exactly one type_info object
+      if (strstr(name, "_GLOBAL__N_") != nullptr)
+        return &typeid(T) == &stored;
+
+      // NOTE: names are compared as strings so that a type is recognized
+      //       across modules that do not share their type_info objects
+      return strcmp(name, stored.name()) == 0;
     }
 
     inline bool Any::valid() const
